@@ -1450,3 +1450,82 @@ func (it *Interp) checkAccess(slot *Value, write bool) {
 		it.findings = append(it.findings, Finding{Kind: "assert", Label: bad, Inputs: it.safeModelInputs()})
 	}
 }
+
+// strings.NewReplacer / (*Replacer).Replace for single-byte patterns with replacements of at most
+// one byte (deletion included). The result of Replace on a string of concrete length n is a
+// sequence of symbolic length: byte i is kept or mapped or dropped, position = number of emitted
+// bytes before it. No forking.
+func init() {
+	models["strings.NewReplacer"] = func(it *Interp, fr *frame, args []Value, fn *ssa.Function) Value {
+		g, _ := args[0].(GSlice)
+		if len(g.D)%2 != 0 {
+			panic(goPanic{Msg: "strings.NewReplacer: odd argument count"})
+		}
+		var pairs []string
+		for _, v := range g.D {
+			s, ok := it.concreteString(v.(Bytes))
+			if !ok {
+				unsupported("NewReplacer with symbolic pattern")
+			}
+			pairs = append(pairs, s)
+		}
+		for i := 0; i < len(pairs); i += 2 {
+			if len(pairs[i]) != 1 || len(pairs[i+1]) > 1 {
+				if it.inInit {
+					return Poison{"strings.NewReplacer with multi-byte patterns"}
+				}
+				unsupported("NewReplacer with multi-byte patterns")
+			}
+		}
+		slot := new(Value)
+		*slot = &Opaque{Kind: "replacer", F: map[string]Value{"pairs": it.strVal(strings.Join(pairs, "\x00"))}}
+		return Ptr{slot}
+	}
+	models["(*strings.Replacer).Replace"] = func(it *Interp, fr *frame, args []Value, fn *ssa.Function) Value {
+		c := it.ctx
+		p := args[0].(Ptr)
+		op, ok := (*p.P).(*Opaque)
+		if !ok {
+			unsupported("Replace on an unmodelled Replacer")
+		}
+		ps, _ := it.concreteString(op.F["pairs"].(Bytes))
+		pairs := strings.Split(ps, "\x00")
+		s := args[1].(Bytes)
+		if str, ok := it.concreteString(s); ok {
+			return it.strVal(strings.NewReplacer(pairs...).Replace(str))
+		}
+		if !s.Len.IsConst() || s.Len.k > 128 {
+			unsupported("Replacer.Replace on a string of symbolic length")
+		}
+		n := int(s.Len.k)
+		keep := make([]*Term, n) // Bool: byte i is emitted
+		val := make([]*Term, n)
+		pos := make([]*Term, n+1)
+		pos[0] = c.Int(0)
+		for i := 0; i < n; i++ {
+			b := it.bytesAt(s, c.Int(int64(i)))
+			k, v := c.True, b
+			for j := len(pairs) - 2; j >= 0; j -= 2 {
+				hit := c.Eq(b, c.BV(uint64(pairs[j][0]), 8))
+				if pairs[j+1] == "" {
+					k = c.Ite(hit, c.False, k)
+				} else {
+					k = c.Ite(hit, c.True, k)
+					v = c.Ite(hit, c.BV(uint64(pairs[j+1][0]), 8), v)
+				}
+			}
+			keep[i], val[i] = k, v
+			pos[i+1] = c.Bin(OpAdd, pos[i], c.Ite(k, c.Int(1), c.Int(0)))
+		}
+		total := pos[n]
+		o := &ByteObj{capT: total}
+		o.fn = func(idx *Term) *Term {
+			res := c.BV(0, 8)
+			for i := n - 1; i >= 0; i-- {
+				res = c.Ite(c.And(keep[i], c.Eq(pos[i], idx)), val[i], res)
+			}
+			return res
+		}
+		return Bytes{Obj: o, Off: c.Int(0), Len: total, Cap: total, Str: true}
+	}
+}
